@@ -321,6 +321,68 @@ theorem c26_counterexample_unrepaired :
 /-- the same schedule on the repaired code is not stuck -/
 example : witnessStuck true = false := by decide
 
+/-! ## Recording the error after `sg.Done()` loses it and leaks it into the next job -/
+
+def runLate (l : LState) : List LStep → Option LState
+  | [] => some l
+  | st :: r => if isEnabledLate l st then runLate (applyLate l st) r else none
+
+theorem runLate_reachable {w m : Nat} {l : LState} (hr : LateReachable w m l) :
+    ∀ (tr : List LStep) (l' : LState), runLate l tr = some l' → LateReachable w m l' := by
+  intro tr
+  induction tr generalizing l with
+  | nil => intro l' h; simp only [runLate, Option.some.injEq] at h; subst h; exact hr
+  | cons st r ih =>
+    intro l' h
+    simp only [runLate] at h
+    split at h
+    · rename_i hen; exact ih (LateReachable.step st hr hen) l' h
+    · cases h
+
+/-- 1 worker. Job 0 = [fail]: the worker does `Done` first, the scheduler passes `sg.Wait`,
+publishes nil and resets `err`; only then the worker records the error. Job 1 = [ok]: its
+only task sees the stale error and is skipped, the job reports task 0's error. -/
+def lateWitness : List LStep :=
+  [.base .newJob, .base .pqTake, .base (.go 0 true), .base (.done 0), .base (.feed 0),
+   .base (.wCheck 0), .lateDone 0, .base .endFeed, .base .pqFinish, .lateRecord 0,
+   .base .newJob, .base .pqTake, .base (.go 1 false), .base (.done 1), .base (.feed 0),
+   .base (.wCheck 0), .base .endFeed, .base .pqFinish]
+
+def lateWitnessOk : Bool :=
+  match runLate { s := init true 1 4, pend := fun _ => none } lateWitness with
+  | some l =>
+    l.s.delivered 0 == some .ok && l.s.ntasks == 2 && l.s.jobOf 0 == 0 && l.s.fails 0 &&
+    l.s.finished 0 && l.s.execs 0 == 1 && l.s.delivered 1 == some (.err 0) && l.s.jobOf 1 == 1 &&
+    !l.s.fails 1 && l.s.execs 1 == 0 && l.s.completed 0 && l.s.completed 1
+  | none => false
+
+/-- If the worker decrements the completion count before it records the error (the two
+halves of `wFinish` in the other order), `error_iff_some_failed` and `all_run_if_none_fails`
+fail: a reachable state in which job 0 was answered nil although its executed task 0 failed,
+and job 1, none of whose tasks fails, was answered with task 0's error and never ran its
+task. (The theorems above hold because `apply (.wFinish i)` records the error and calls
+`sg.Done()` in one step, error first — which is the order of the code.) -/
+theorem c26_counterexample_error_after_done :
+    ∃ l, LateReachable 1 4 l ∧
+      l.s.delivered 0 = some .ok ∧ FailedIn l.s 0 ∧
+      l.s.completed 1 = true ∧ l.s.delivered 1 = some (.err 0) ∧
+      (∀ t, t < l.s.ntasks → l.s.jobOf t = 1 → l.s.fails t = false) ∧
+      (1 < l.s.ntasks ∧ l.s.jobOf 1 = 1 ∧ l.s.execs 1 = 0) := by
+  have h : lateWitnessOk = true := by decide
+  unfold lateWitnessOk at h
+  split at h
+  · rename_i l hl
+    simp only [Bool.and_eq_true, beq_iff_eq, Bool.not_eq_true'] at h
+    obtain ⟨⟨⟨⟨⟨⟨⟨⟨⟨⟨⟨h1, h2⟩, h3⟩, h4⟩, h5⟩, h6⟩, h7⟩, h8⟩, h9⟩, h10⟩, h11⟩, h12⟩ := h
+    refine ⟨l, runLate_reachable LateReachable.init _ _ hl, h1, ⟨0, by omega, h3, h4, h5⟩, h12, h7, ?_,
+      by omega, h8, h10⟩
+    intro t ht hj
+    have : t = 0 ∨ t = 1 := by omega
+    rcases this with rfl | rfl
+    · rw [h3] at hj; cases hj
+    · exact h9
+  · cases h
+
 /-! ## serial_workers.go -/
 
 theorem serial_fold_err (ts : List (Nat × Bool)) (j : SerialJob) (h : j.err.isSome = true) :
